@@ -210,6 +210,7 @@ package config
 //@   loop 4 invariant forall k int :: 0 <= k && k < iter ==> !net.NetContains(*cidr, nodeIps[k])
 //@   loop 4 invariant 0 <= idx(2) && idx(2) < len(pool.CIDR) && cidr == pool.CIDR[idx(2)] && WfCIDR(cidr) && (forall b int :: 0 <= b && b < len(allCIDRs) ==> !Overlap(cidr, allCIDRs[b]))
 //@   ensures [keyed] result1 == nil ==> result0 != nil && result0.ByName != nil && PoolsKeyed(result0.ByName)
+//@   ensures [allPools] result1 == nil ==> (forall k int :: 0 <= k && k < len(resources.Pools) ==> (resources.Pools[k].Name in result0.ByName))
 //@   ensures [disjoint] result1 == nil ==> (forall n string, m string, i int, j int :: (n in result0.ByName) && (m in result0.ByName) && 0 <= i && i < len(result0.ByName[n].CIDR) && 0 <= j && j < len(result0.ByName[m].CIDR)
 //@       && result0.ByName[n].CIDR[i] != result0.ByName[m].CIDR[j] ==> !Overlap(result0.ByName[n].CIDR[i], result0.ByName[m].CIDR[j]))
 //@   ensures [wf] result1 == nil ==> (forall n string :: (n in result0.ByName) ==> len(result0.ByName[n].CIDR) >= 1 && AllWf(result0.ByName[n].CIDR))
@@ -217,6 +218,7 @@ package config
 //@   loop 1 invariant forall n string :: (n in pools) ==> len(pools[n].CIDR) >= 1 && AllWf(pools[n].CIDR) && fresh(pools[n])
 //@   loop 2 invariant pools != nil && fresh(pools) && PoolsKeyed(pools) && (allCIDRs == nil || fresh(allCIDRs)) && Disjoint(allCIDRs) && Listed(pools, allCIDRs)
 //@   loop 2 invariant forall n string :: (n in pools) ==> len(pools[n].CIDR) >= 1 && AllWf(pools[n].CIDR) && fresh(pools[n])
+//@   loop 1 invariant [allPools] forall k int :: 0 <= k && k < iter ==> (resources.Pools[k].Name in pools)
 //@   loop 1 invariant [noAdvs] forall n string :: (n in pools) ==> pools[n].L2Advertisements == nil && pools[n].BGPAdvertisements == nil
 //@   loop 2 invariant [noAdvs] forall n string :: (n in pools) ==> pools[n].L2Advertisements == nil && pools[n].BGPAdvertisements == nil
 //@   loop 2 invariant pool != nil && fresh(pool) && pool.Name == p.Name && p.Name != "" && len(pool.CIDR) >= 1 && AllWf(pool.CIDR) && !(p.Name in pools)
@@ -373,6 +375,7 @@ package config
 //@   abstract
 //@   ensures [made] result1 == nil ==> result0 != nil && result0.Pools != nil && result0.Pools.ByName != nil
 //@   ensures [keyed] result1 == nil ==> PoolsKeyed(result0.Pools.ByName)
+//@   ensures [allPools] result1 == nil ==> (forall k int :: 0 <= k && k < len(resources.Pools) ==> (resources.Pools[k].Name in result0.Pools.ByName))
 //@   ensures [disjoint] result1 == nil ==> (forall n string, m string, i int, j int :: (n in result0.Pools.ByName) && (m in result0.Pools.ByName) && 0 <= i && i < len(result0.Pools.ByName[n].CIDR) && 0 <= j && j < len(result0.Pools.ByName[m].CIDR)
 //@       && result0.Pools.ByName[n].CIDR[i] != result0.Pools.ByName[m].CIDR[j] ==> !Overlap(result0.Pools.ByName[n].CIDR[i], result0.Pools.ByName[m].CIDR[j]))
 //@   ensures [nodeFree] result1 == nil ==> (forall n string, i int :: (n in result0.Pools.ByName) && 0 <= i && i < len(result0.Pools.ByName[n].CIDR) ==> NodeFree(resources.Nodes, result0.Pools.ByName[n].CIDR[i]))
